@@ -135,6 +135,10 @@ def stepLine (st : St) (line : String) : St × String :=
     -- a history that names its stream buffer size
     let s : SState := { base := State.create, handles := [], maxBuf := mb.toNat?.getD CfbVerif.Gen.DEFAULT_STREAM_MAX_BUFFER_SIZE }
     ({ s := s, live := true }, "ok | " ++ tail s)
+  | ["create", _v, mb, _backend] =>
+    -- … and how its underlying file splits transfers (nothing in the model depends on that)
+    let s : SState := { base := State.create, handles := [], maxBuf := mb.toNat?.getD CfbVerif.Gen.DEFAULT_STREAM_MAX_BUFFER_SIZE }
+    ({ s := s, live := true }, "ok | " ++ tail s)
   | ["snap", _] => (st, dump st.s.base ++ " | " ++ tail st.s)
   | ws =>
     if !st.live then (st, "err nofile | - | -") else
